@@ -212,24 +212,34 @@ func (l *lbCtx) lb0(v ssa.Value) int64 {
 }
 
 func dependsOn(v ssa.Value, target ssa.Value, depth int) bool {
+	return dependsOnSeen(v, target, depth, map[ssa.Value]bool{})
+}
+
+func dependsOnSeen(v ssa.Value, target ssa.Value, depth int, seen map[ssa.Value]bool) bool {
 	if v == target {
 		return true
 	}
-	if depth > 12 {
+	if seen[v] {
+		return false // already explored on this query (cycles through other phis)
+	}
+	seen[v] = true
+	if depth > 40 {
 		return true // be conservative: treat as cyclic
 	}
 	switch x := v.(type) {
 	case *ssa.BinOp:
-		return dependsOn(x.X, target, depth+1) || dependsOn(x.Y, target, depth+1)
+		return dependsOnSeen(x.X, target, depth+1, seen) || dependsOnSeen(x.Y, target, depth+1, seen)
 	case *ssa.Convert:
-		return dependsOn(x.X, target, depth+1)
+		return dependsOnSeen(x.X, target, depth+1, seen)
 	case *ssa.ChangeType:
-		return dependsOn(x.X, target, depth+1)
+		return dependsOnSeen(x.X, target, depth+1, seen)
 	case *ssa.UnOp:
-		return dependsOn(x.X, target, depth+1)
+		if x.Op != token.MUL {
+			return dependsOnSeen(x.X, target, depth+1, seen)
+		}
 	case *ssa.Phi:
 		for _, e := range x.Edges {
-			if e != x && dependsOn(e, target, depth+4) {
+			if e != x && dependsOnSeen(e, target, depth+1, seen) {
 				return true
 			}
 		}
